@@ -281,6 +281,10 @@ theorem padEven_prefix (b : Bytes) : ∃ t, padEven b = b ++ t := by
 def Placed (d : Bytes) (frb : Nat) (hc : HCode) : Prop :=
   ∃ off, CodeAt d frb (encFs (recFields hc off)) ∧ CodeAt d off (blockBytes hc) ∧ off + (blockBytes hc).length < 32768
 
+/-- the same with a lower bound for the block's address (the bytes declared by the records before it, F103) -/
+def PlacedLo (d : Bytes) (frb : Nat) (hc : HCode) (lo : Nat) : Prop :=
+  ∃ off, lo ≤ off ∧ CodeAt d frb (encFs (recFields hc off)) ∧ CodeAt d off (blockBytes hc) ∧ off + (blockBytes hc).length < 32768
+
 /-- the model context before the function records are read -/
 structure Ctx0 (ctx0 : Lscr.Ctx) (sF : St) (hnames : List Spec.Name) : Prop where
   names : ctx0.names = sF.names
@@ -333,15 +337,15 @@ theorem FuncRelg.toFuncRel {hs G : List Spec.Name} {h : Handler} {f : FuncDef} (
 
 theorem parseFunc_okg (B : Handler → Nat → Nat → List Node → Prop) (F : Handler → List Node → Prop)
     (ctx0 : Lscr.Ctx) (d : Bytes) (frb : Nat) (h : Handler) (hc : HCode) (sF : St) (hnames G : List Spec.Name)
-    (h0 : Ctx0 ctx0 sF hnames) (hok : HandlerOKg B hnames G sF h hc) (hflow : FlowOk B F h) (hm : h.isMethod = false) (hpl : Placed d frb hc)
+    (h0 : Ctx0 ctx0 sF hnames) (hok : HandlerOKg B hnames G sF h hc) (hflow : FlowOk B F h) (hm : h.isMethod = false) (dcl : Nat) (hpl : PlacedLo d frb hc dcl)
     (hP : ∀ v ∈ Stmt.varsList .prop h.body, ctx0.props.contains v = true)
     (regs : Regs) (Fs : List FuncDef) :
-    ∃ regs' f, parseFunc ctx0 d (frb : Int) { bpc := 6, tell := false, regs := regs, funcs := Fs }
-        = .ok { bpc := 6, tell := false, regs := regs', funcs := Fs ++ [f] } ∧ FuncRelg F G h f := by
-  obtain ⟨off, hrec, hblk, hsz⟩ := hpl
+    ∃ regs' f, parseFunc ctx0 d (frb : Int) { bpc := 6, tell := false, regs := regs, funcs := Fs, declared := dcl }
+        = .ok { bpc := 6, tell := false, regs := regs', funcs := Fs ++ [f], declared := dcl + hw hc } ∧ FuncRelg F G h f := by
+  obtain ⟨off, hlo, hrec, hblk, hsz⟩ := hpl
   obtain ⟨locals, params, globals, hfrb, hL, hPm, hGm⟩ := readFrb_ok ctx0 d frb off hc h.name h.params h.locals (h.globalsUsed G) hrec hblk hsz
     (by have := hok.ni.1; omega) (by rw [h0.names]; exact hok.ni.2) (by rw [h0.names]; exact hok.args) (by rw [h0.names]; exact hok.locals)
-    (by rw [h0.names]; exact hok.globals) (globalsUsed_nodup h G)
+    (by rw [h0.names]; exact hok.globals) (globalsUsed_nodup h G) dcl hlo
   obtain ⟨is, hcode, hgood, hrun⟩ := hok.code
   have hrel := rel_of_ctx0 ctx0 sF hnames h hm h0 locals params hL hPm
   have hbase : GvOk (G ++ h.globalsUsed G) globals := leaves_gvOk _ _ _ hGm (fun g hg => List.mem_append_right _ hg)
@@ -374,24 +378,27 @@ theorem parseFuncs_okg (B : Handler → Nat → Nat → List Node → Prop) (F :
     (ctx0 : Lscr.Ctx) (d : Bytes) (frb : Nat) (sF : St) (hnames G : List Spec.Name) (h0 : Ctx0 ctx0 sF hnames) :
     ∀ (hs : List Handler) (hcs : List HCode), All2 (HandlerOKg B hnames G sF) hs hcs →
     (∀ h ∈ hs, FlowOk B F h ∧ h.isMethod = false ∧ (∀ v ∈ Stmt.varsList .prop h.body, ctx0.props.contains v = true)) →
-    ∀ (k : Nat), (∀ j hc, hcs[j]? = some hc → Placed d (frb + 42 * (k + j)) hc) → ∀ (regs : Regs) (Fs : List FuncDef),
-    ∃ regs' fs, parseFuncs ctx0 d hs.length ((frb + 42 * k : Nat) : Int) { bpc := 6, tell := false, regs := regs, funcs := Fs }
-        = .ok { bpc := 6, tell := false, regs := regs', funcs := Fs ++ fs } ∧ All2 (FuncRelg F G) hs fs := by
+    ∀ (k dcl : Nat), (∀ j hc, hcs[j]? = some hc → PlacedLo d (frb + 42 * (k + j)) hc (dcl + wsum hcs j)) → ∀ (regs : Regs) (Fs : List FuncDef),
+    ∃ regs' fs dcl', parseFuncs ctx0 d hs.length ((frb + 42 * k : Nat) : Int) { bpc := 6, tell := false, regs := regs, funcs := Fs, declared := dcl }
+        = .ok { bpc := 6, tell := false, regs := regs', funcs := Fs ++ fs, declared := dcl' } ∧ All2 (FuncRelg F G) hs fs := by
   intro hs hcs hall
   induction hall with
   | nil =>
-    intro _ k _ regs Fs
-    exact ⟨regs, [], by simp [parseFuncs], All2.nil⟩
+    intro _ k dcl _ regs Fs
+    exact ⟨regs, [], dcl, by simp [parseFuncs], All2.nil⟩
   | @cons h hc hs hcs hok _ ih =>
-    intro hfr k hpl regs Fs
+    intro hfr k dcl hpl regs Fs
     obtain ⟨hfl, hm, hP⟩ := hfr h (by simp)
-    obtain ⟨regs1, f, hpf, hrel⟩ := parseFunc_okg B F ctx0 d (frb + 42 * k) h hc sF hnames G h0 hok hfl hm (by simpa using hpl 0 hc rfl) hP regs Fs
-    obtain ⟨regs2, fs, hpfs, hrels⟩ := ih (fun x hx => hfr x (by simp [hx])) (k + 1)
+    obtain ⟨regs1, f, hpf, hrel⟩ := parseFunc_okg B F ctx0 d (frb + 42 * k) h hc sF hnames G h0 hok hfl hm dcl
+      (by simpa [wsum] using hpl 0 hc rfl) hP regs Fs
+    obtain ⟨regs2, fs, dcl', hpfs, hrels⟩ := ih (fun x hx => hfr x (by simp [hx])) (k + 1) (dcl + hw hc)
       (fun j c hj => by
         have := hpl (j + 1) c (by simpa using hj)
         have e : k + (j + 1) = k + 1 + j := by omega
-        rwa [e] at this) regs1 (Fs ++ [f])
-    refine ⟨regs2, f :: fs, ?_, All2.cons hrel hrels⟩
+        have e2 : dcl + wsum (hc :: hcs) (j + 1) = dcl + hw hc + wsum hcs j := by
+          simp only [wsum, List.take_succ_cons, List.map_cons, List.sum_cons]; omega
+        rwa [e, e2] at this) regs1 (Fs ++ [f])
+    refine ⟨regs2, f :: fs, dcl', ?_, All2.cons hrel hrels⟩
     simp only [List.length_cons, parseFuncs, hpf, bind, Except.bind]
     have e : ((frb + 42 * k : Nat) : Int) + 42 = ((frb + 42 * (k + 1) : Nat) : Int) := by omega
     rw [e, hpfs]
